@@ -6,7 +6,7 @@
 use super::common::*;
 use crate::api::Api;
 use crate::flow;
-use crate::fw::{self, Cx, Report, Tier};
+use crate::fw::{self, Cx, Report, Tier, Totals};
 use crate::tape::Tape;
 use serde_json::json;
 use std::time::Instant;
@@ -85,12 +85,35 @@ pub fn run(tier: Tier, seed: u64) -> i32 {
         one(api, it, seed, cx);
         cx.sample(json!({"suite": api.name(), "family": api.s.family(), "input": it.describe(), "actions": ["setup", "reg_start", "sreg_start", "reg_finish", "sreg_finish", "login_start", "slogin_start", "login_finish", "slogin_finish"]}));
     });
+    // honest behaviour over HISTORIES and over equal-but-differently-spelled parameters (run on behalf of C01 by the
+    // machinery of C16, C07 and C05 in `Mode::Honest`: only failures of honest, matched behaviour are reported)
+    let mut tot = tot;
+    let apis = all_apis();
+    tot.merge(fw::run_items("C01", &apis, |a| a.name().to_string(), |api, cx| match super::c16::world(api, tier, seed, Mode::Honest) {
+        Ok(w) => {
+            let st = crate::explore::bfs(&w, cx, 400_000);
+            cx.add("history_states", st.states);
+        }
+        Err(e) => cx.violate_case("history/setup", e, json!({})),
+    }));
+    tot.merge(fw::run_items("C01", &apis, |a| a.name().to_string(), |api, cx| super::c07::part_a(api, 0, seed, cx, Mode::Honest)));
+    let ts: Vec<super::c05::Triple> = super::c05::triples(tier);
+    let mut sorted = ts.clone();
+    sorted.sort_by_key(|t| fw::h128(t));
+    let chunks: Vec<Vec<super::c05::Triple>> = sorted.chunks((sorted.len() + 3) / 4).map(|c| c.to_vec()).collect();
+    let mut items2 = vec![];
+    for api in all_apis() {
+        for c in &chunks {
+            items2.push((api, c.clone()));
+        }
+    }
+    tot.merge(fw::run_items("C01", &items2, |(a, _)| a.name().to_string(), |(api, c), cx| super::c05::explore(api, c, seed, cx, Mode::Honest)));
     let rep = Report {
         property: "C01",
         tier,
         seed,
         rule: "every input tuple with <=k deviations from the default over the stated alphabets (plus the full boundary product {\"\",255,256,65535}^4 in the thorough tier) is run through the honest 9-step flow on the production build; differential oracle between client and server".into(),
-        bounds: json!({"suites": 20, "input_tuples_per_suite": tuples.len(), "deviation_bound": if tier.thorough() {3} else {2}, "ksf_families": {"identity": "all tuples", "probe": "<=1 deviation x {absent, explicit default, id 2}", "argon2": "default tuple x {absent, explicit default, cost 1} on 3 suites"}}),
+        bounds: json!({"suites": 20, "input_tuples_per_suite": tuples.len(), "deviation_bound": if tier.thorough() {3} else {2}, "histories": "all histories of registrations/logins within C16's operation bounds; the routing population of C07(a); all matched parameter triples of C05's families (incl. explicit-public-key spellings, empty vs absent context)", "ksf_families": {"identity": "all tuples", "probe": "<=1 deviation x {absent, explicit default, id 2}", "argon2": "default tuple x {absent, explicit default, cost 1} on 3 suites"}}),
         assumptions: vec![],
         exhaustive: true,
         crosscheck: json!(null),
